@@ -44,12 +44,15 @@ sigmoid = lambda x: 1./(1. + np.exp(-x))
 
 interp = """
 def interp(x_new, x, y):
-    idx = argmin(abs(x-x_new))
-    if abs(x[idx]) > abs(x_new):
+    idx = int(argmin(abs(x-x_new)))
+    if x[idx] > x_new:
         i1, i2 = idx-1, idx
     else:
         i1, i2 = idx, idx+1
-    return (y[i1] + y[i1])*0.5
+    i1, i2 = max(i1, 0), min(i2, len(x)-1)
+    if i1 == i2:
+        return y[i1]
+    return y[i1] + (x_new - x[i1]) / (x[i2] - x[i1]) * (y[i2] - y[i1])
 """
 
 # Weighted sum: einsum-based, identical algebra to base_funcs.wsum but using
